@@ -222,6 +222,18 @@ class ConstEval:
                 r = hook(n, fn, args, dict(kwargs), local)
                 if r is not None:
                     return r
+            if isinstance(n.func, ast.Attribute) and n.func.attr == "get" and args and is_const(args[0]):
+                base = self.ev(n.func.value, local)
+                if isinstance(base, dict) and is_const(list(base.keys())):
+                    try:
+                        return base.get(args[0], args[1] if len(args) > 1 else None)
+                    except TypeError:
+                        pass
+            if last in ("int", "str", "len", "bool", "float") and len(args) >= 1 and not kwargs and all(is_const(a) for a in args):
+                try:
+                    return {"int": int, "str": str, "len": len, "bool": bool, "float": float}[last](*[_num(a) if last != "len" else a for a in args])
+                except Exception:
+                    pass
             return CallVal(fn, args, kwargs)
         if isinstance(n, ast.JoinedStr):
             return Sym(src(n))
